@@ -586,4 +586,91 @@ def renderItem : Item → Str
 def expandText (A : Answers) (o : Opts) (lines : List Str) : Except Err (List Str) :=
   (expandItems A o lines).map (·.map renderItem)
 
+
+/-! ## projections of classified lines (used by the statements about the reader) -/
+
+/-- the line a classified input line contributes to the blocks -/
+def Classified.bline : Classified → Option BLine
+  | .blank raw => some ⟨.blank, raw⟩
+  | .eups _ => none
+  | .setup t _ => some ⟨.setup, t⟩
+  | .other t => some ⟨.other, t⟩
+
+def Classified.prod : Classified → Option Prod
+  | .setup _ p => p
+  | _ => none
+
+def Classified.finalLine : Classified → Option Str
+  | .eups t => some t
+  | _ => none
+
+def Classified.otherText : Classified → Option Str
+  | .other t => some t
+  | _ => none
+
+def Classified.setupText : Classified → Option Str
+  | .setup t _ => some t
+  | _ => none
+
+/-- no line of the table, as the reader stores it, matches `if (type == exact) {` -/
+def noExactLine (A : Answers) (o : Opts) (lines : List Str) : Bool :=
+  match lines.mapM (classify A o) with
+  | .ok cs => cs.all fun c => match c.bline with
+    | some l => !preExactRe l.text
+    | none => true
+  | .error _ => true
+
+/-! ## answers given as finite tables (what the driver receives; also used for concrete instances) -/
+
+structure AnswerData where
+  pins : List (Str × Str) := []
+  spv : List (Str × Str) := []
+  sv : List (Str × Str) := []
+  deps : List ((Str × Str) × Option (List Dep)) := []     -- `none` = the call raised
+
+def lookup (l : List (Str × Str)) (k : Str) : Option Str :=
+  match l with
+  | [] => none
+  | (k', v) :: rest => if k' == k then some v else lookup rest k
+
+def depsLookup (l : List ((Str × Str) × Option (List Dep))) (n v : Str) : DepsAnswer :=
+  match l with
+  | [] => .unknown
+  | ((n', v'), r) :: rest =>
+    if n' == n && v' == v then (match r with | none => .raised | some d => .ok d) else depsLookup rest n v
+
+def AnswerData.toAnswers (d : AnswerData) : Answers :=
+  { pin := lookup d.pins, spv := lookup d.spv, sv := lookup d.sv, deps := depsLookup d.deps }
+
+/-- decidable form of the hypothesis `DepsSound` -/
+def AnswerData.depsSound (d : AnswerData) : Bool :=
+  d.deps.all fun e => match e.2 with
+    | some l => l.all fun x => lookup d.sv x.name == some x.version
+    | none => true
+
+/-- decidable form of "the `-p` pins agree with what is set up" -/
+def AnswerData.pinsAgree (d : AnswerData) : Bool :=
+  d.pins.all fun e => lookup d.sv e.1 == some e.2
+
+/-- what one product of the table contributes to `desiredProducts` (the list `NVOL` of the collection loop) -/
+def contrib (A : Answers) (o : Opts) (p : Prod) : List Dep :=
+  if o.toplevel == some p.name then []
+  else if p.external then []
+  else match topVersion A p.name with
+    | none => []
+    | some v =>
+      if o.recurse && !p.noRecursion then
+        match A.deps p.name v with
+        | .ok l => ⟨p.name, v, p.optional⟩ :: l
+        | _ => []
+      else [⟨p.name, v, p.optional⟩]
+
+/-- decidable form of the hypothesis `Covered`: every set-up product other than the top-level one is contributed by
+a product of the table -/
+def AnswerData.covered (d : AnswerData) (o : Opts) (lines : List Str) : Bool :=
+  match readAll d.toAnswers o lines with
+  | .error _ => true
+  | .ok st => d.sv.all fun e =>
+      o.toplevel == some e.1 || st.products.any fun p => (contrib d.toAnswers o p).any fun x => x.name == e.1
+
 end EupsModel.Expand
